@@ -949,10 +949,56 @@ const COMMENT_TEXTS: [&str; 14] = [
     "interface a.b",
     "non-ASCII: é ü → 日本 ✓",
 ];
+/// Code point ranges comment texts draw from: every UTF-8 length, the blocks around the two Unicode
+/// line separators (which themselves end a comment and are left out), typographic punctuation,
+/// combining marks, the BOM, astral planes.
+const COMMENT_BLOCKS: [(u32, u32); 14] = [
+    (0x21, 0x7e),
+    (0xa1, 0xff),
+    (0x100, 0x24f),
+    (0x300, 0x36f),
+    (0x400, 0x4ff),
+    (0x7c0, 0x7ff),
+    (0x800, 0x83f),
+    (0x2010, 0x2027),
+    (0x202a, 0x205e),
+    (0x2060, 0x20cf),
+    (0x2100, 0x2bff),
+    (0x3041, 0x30ff),
+    (0xfe00, 0xfeff),
+    (0x1f300, 0x1f64f),
+];
+const COMMENT_SPACES: [char; 6] = ['\u{a0}', '\u{2002}', '\u{2009}', '\u{200b}', '\u{3000}', '\u{85}'];
+fn gen_comment_text(r: &mut Rng) -> String {
+    let mut s = String::new();
+    for w in 0..r.range(1, 4) {
+        if w > 0 {
+            // blanks inside a comment belong to it, including the Unicode ones
+            if r.chance(1, 3) {
+                s.push(*r.pick(&COMMENT_SPACES));
+            } else {
+                s.push(' ');
+            }
+        }
+        for _ in 0..r.range(1, 4) {
+            let (lo, hi) = *r.pick(&COMMENT_BLOCKS);
+            let cp = lo + r.below((hi - lo + 1) as u64) as u32;
+            match char::from_u32(cp) {
+                Some(c) if !c.is_whitespace() && !c.is_control() => s.push(c),
+                _ => s.push('x'),
+            }
+        }
+    }
+    s
+}
 pub fn gen_comments(r: &mut Rng, density: u64) -> Vec<String> {
     let mut v = Vec::new();
     while r.chance(density, 10) && v.len() < 3 {
-        v.push(r.pick(&COMMENT_TEXTS).to_string());
+        if r.chance(1, 3) {
+            v.push(gen_comment_text(r));
+        } else {
+            v.push(r.pick(&COMMENT_TEXTS).to_string());
+        }
     }
     v
 }
